@@ -1,7 +1,7 @@
 (** C15 – untrusted input never crashes the server; polynomial cost; resolver panics contained;
     cancelled one-shot requests return.  Statements only; proofs are in GqlTyping/Proofs*.v. *)
 From Coq Require Import List ZArith String Bool Arith.
-From Thunder Require Import Lib.Json GqlTyping.Types GqlTyping.Parse GqlTyping.ProofsParse GqlTyping.ProofsCost GqlTyping.ProofsExec
+From Thunder Require Import Lib.Json GqlTyping.Types GqlTyping.Parse GqlTyping.ProofsParse GqlTyping.ProofsCost GqlTyping.ProofsExec GqlTyping.ProofsCostPrepare
      GqlTyping.Conn GqlTyping.ProofsConn GqlTyping.OneShot GqlTyping.ProofsOneShot.
 Import ListNotations.
 Open Scope string_scope.
@@ -51,6 +51,17 @@ Theorem detect_conflicts_cost_repaired_linear :
     convert repaired doc vars = ROk (q, c) -> c <= 1 + query_size q.
 Proof. exact convert_repaired_linear. Qed.
 Print Assumptions detect_conflicts_cost_repaired_linear.
+
+(** … and the memoised PrepareQuery (one check per (type, fragment) pair) makes at most
+      K * (1 + |operation's selection set| + |types of the schema| * |fragments|)
+    calls, K = 1 + the deepest List/NonNull wrapping of a field type: linear in the query for a fixed
+    schema, for every query and every schema. *)
+Theorem prepare_cost_repaired_polynomial :
+  forall (sch : schema) (root : string) (q : query) (n : nat),
+    prepare repaired sch root q = ROk n ->
+    n <= kcost sch * (1 + items_size (q_sel q) + List.length sch * ftable_size (q_frags q)).
+Proof. exact (fun sch root q n => prepare_memo_cost repaired sch root q n eq_refl). Qed.
+Print Assumptions prepare_cost_repaired_polynomial.
 
 (** 2b. What runs after Parse on the same untrusted query cannot crash either.  Flatten (called by the
     executor on every selection set of the query) and PrepareQuery recurse through fragment spreads
